@@ -9,7 +9,9 @@ import (
 	"context"
 	"errors"
 	"fmt"
+	"reflect"
 	"runtime"
+	"strings"
 	"sync"
 	"sync/atomic"
 	"testing"
@@ -165,7 +167,13 @@ func (w *c45CountingSink) Receive(rctx *actor.ReceiveContext) {
 
 // c45Collect is Collect[any] with the counting wrapper around the real sink actor.
 func c45Collect(terminals *atomic.Int64, completions *atomic.Int64) (*Collector[any], Sink[any]) {
+	return c45CollectStalling(terminals, completions, 0, 0)
+}
+
+// c45CollectStalling: a consumer that stalls for `pause` after every `every` elements (every = 0: never).
+func c45CollectStalling(terminals *atomic.Int64, completions *atomic.Int64, every int, pause time.Duration) (*Collector[any], Sink[any]) {
 	result := newCollector[any]()
+	seen := 0
 	config := defaultStageConfig()
 	desc := &stage{
 		id:   newStageID(),
@@ -173,6 +181,10 @@ func c45Collect(terminals *atomic.Int64, completions *atomic.Int64) (*Collector[
 		actorFn: func(cfg StageConfig) actor.Actor {
 			return &c45CountingSink{terminals: terminals, inner: newSinkActor(func(v any) error {
 				result.append(v)
+				seen++
+				if every > 0 && seen%every == 0 {
+					time.Sleep(pause)
+				}
 				return nil
 			}, func() { completions.Add(1); result.markDone() }, cfg)}
 		},
@@ -427,28 +439,101 @@ func c45DecVal(v any) any {
 	return v
 }
 
-func c45Snap(a actor.Actor) []int64 {
-	b2i := func(b bool) int64 {
-		if b {
-			return 1
-		}
-		return 0
+// c45Fields reads internal ledger fields by name through reflection, so that a change of the actor's
+// private fields cannot break the harness build; a missing field yields ok=false and the step comparison
+// then falls back to the messages only.
+func c45Fields(a any, names ...string) ([]int64, bool) {
+	v := reflect.ValueOf(a)
+	for v.Kind() == reflect.Pointer || v.Kind() == reflect.Interface {
+		v = v.Elem()
 	}
-	switch x := a.(type) {
+	out := make([]int64, 0, len(names))
+	for _, name := range names {
+		sliceElems := false
+		if strings.HasSuffix(name, "[]") {
+			sliceElems = true
+			name = name[:len(name)-2]
+		}
+		f := v.FieldByName(name)
+		if !f.IsValid() {
+			return nil, false
+		}
+		switch f.Kind() {
+		case reflect.Int, reflect.Int8, reflect.Int16, reflect.Int32, reflect.Int64:
+			out = append(out, f.Int())
+		case reflect.Uint, reflect.Uint8, reflect.Uint16, reflect.Uint32, reflect.Uint64:
+			out = append(out, int64(f.Uint()))
+		case reflect.Bool:
+			if f.Bool() {
+				out = append(out, 1)
+			} else {
+				out = append(out, 0)
+			}
+		case reflect.Slice:
+			if !sliceElems {
+				out = append(out, int64(f.Len()))
+				break
+			}
+			for i := 0; i < f.Len(); i++ {
+				e := f.Index(i)
+				switch e.Kind() {
+				case reflect.Int64, reflect.Int:
+					out = append(out, e.Int())
+				case reflect.Bool:
+					if e.Bool() {
+						out = append(out, 1)
+					} else {
+						out = append(out, 0)
+					}
+				case reflect.Struct: // queue
+					d, h := e.FieldByName("data"), e.FieldByName("head")
+					if !d.IsValid() || !h.IsValid() {
+						return nil, false
+					}
+					out = append(out, int64(d.Len())-h.Int())
+				default:
+					return nil, false
+				}
+			}
+		case reflect.Struct: // queue: number of live elements
+			d, h := f.FieldByName("data"), f.FieldByName("head")
+			if !d.IsValid() || !h.IsValid() {
+				return nil, false
+			}
+			out = append(out, int64(d.Len())-h.Int())
+		default:
+			return nil, false
+		}
+	}
+	return out, true
+}
+
+// c45NoState marks a snapshot whose fields are not available any more.
+var c45NoState = []int64{-424242}
+
+func c45Snap(a actor.Actor) []int64 {
+	var st []int64
+	var ok bool
+	switch a.(type) {
 	case *flowActor:
-		return []int64{x.upstreamCredit, x.downstreamDemand, int64(x.outputBuf.len()), b2i(x.completing)}
+		st, ok = c45Fields(a, "upstreamCredit", "downstreamDemand", "outputBuf", "completing")
 	case *fusedFlowActor:
-		return []int64{x.credit}
+		st, ok = c45Fields(a, "credit")
 	case *batchFlowActor[any]:
-		return []int64{x.upstreamCredit, x.downstreamDemand, int64(len(x.window))}
+		st, ok = c45Fields(a, "upstreamCredit", "downstreamDemand", "window")
 	case *sinkActor:
-		return []int64{x.credit}
+		st, ok = c45Fields(a, "credit")
 	case *pullSourceActor:
 		return []int64{}
 	case *parallelMapActor[any, any]:
-		return []int64{x.inFlight, int64(x.inputSeqNo), int64(x.nextEmit), int64(len(x.pending)), b2i(x.upstreamDone)}
+		st, ok = c45Fields(a, "inFlight", "inputSeqNo", "nextEmit", "pending", "upstreamDone")
+	default:
+		return nil
 	}
-	return nil
+	if !ok {
+		return c45NoState
+	}
+	return st
 }
 
 // c45Gates lets the driver decide when (and so in which order) the workers of a parallel stage finish.
@@ -605,6 +690,7 @@ func c45RunSteps(t testing.TB, sys actor.ActorSystem, c c45StepCase) c45StepResu
 		return res
 	}
 	res.Wire = drain()
+	var elemSeq uint64
 	for _, m := range c.Script {
 		var msg any
 		switch m.T {
@@ -613,7 +699,8 @@ func c45RunSteps(t testing.TB, sys actor.ActorSystem, c c45StepCase) c45StepResu
 		case "cancel":
 			msg = &streamCancel{subID: "s"}
 		case "elem":
-			msg = &streamElement{subID: "s", value: c45DecVal(m.V)}
+			elemSeq++ // like a real upstream stage: elements are numbered 1..n in emission order
+			msg = &streamElement{subID: "s", value: c45DecVal(m.V), seqNo: elemSeq}
 		case "complete":
 			msg = &streamComplete{subID: "s"}
 		case "error":
